@@ -151,10 +151,17 @@ class Greedy:
                 v = d.value
                 if isinstance(v, ast.BinOp) and isinstance(v.op, ast.Mult) and isinstance(v.left, ast.List) and len(v.left.elts) == 1 \
                         and isinstance(v.left.elts[0], ast.Constant) and v.left.elts[0].value == 0:
-                    out[name] = ('rank', norm(v.right))
+                    # [0.0] * len(L): one slot per element of L (positions of L); [0.0] * n: one slot per rank below n
+                    if isinstance(v.right, ast.Call) and norm(v.right.func) == 'len' and len(v.right.args) == 1:
+                        out[name] = ('pos', norm(v.right.args[0]))
+                    else:
+                        out[name] = ('rank', norm(v.right))
                 elif isinstance(v, ast.ListComp) and isinstance(v.elt, ast.Constant) and v.elt.value == 0 and len(v.generators) == 1:
                     it = v.generators[0].iter
-                    if isinstance(it, ast.Call) and norm(it.func) == 'range' and len(it.args) == 1:
+                    if isinstance(it, ast.Call) and norm(it.func) == 'range' and len(it.args) == 1 and isinstance(it.args[0], ast.Call) and norm(it.args[0].func) == 'len' \
+                            and len(it.args[0].args) == 1:
+                        out[name] = ('pos', norm(it.args[0].args[0]))
+                    elif isinstance(it, ast.Call) and norm(it.func) == 'range' and len(it.args) == 1:
                         out[name] = ('rank', norm(it.args[0]))
                     else:
                         out[name] = ('pos', norm(it))
